@@ -33,7 +33,11 @@ RULE = ('random API-built designs (gen_designs: all primitive ops, widths 1..130
         'run (inspect vs trace), one step_multiple scenario on a twin (normal / nsteps given / 5 prologue '
         'errors / rejected input / stop_after_first_error, expected maps with ~25% wrong entries and ~20% '
         "'?'), 5 illegal values on a random Input, VCD (+/- clock) and print_trace in bases 2/8/10/16 "
-        'padded + one compact; assertion designs: 1-2 rtl_asserts going low at chosen cycles. A case is '
+        'padded + one compact; tracer = default / wires_to_track=\'all\' / an explicit partial list (inspect of '
+        'untracked wires compared with a default-tracer twin; expected_outputs may name untracked wires); '
+        'assertion designs: 1-2 rtl_asserts going low at chosen cycles x 4 tracer configurations (default, all, '
+        'explicit list without / with the assertion wires) x exception objects of 9 classes incl. PyrtlError, '
+        'a PyrtlError subclass, PyrtlInternalError, IndexError. A case is '
         'distinct by (design hash, simulator, channel, scenario) and non-trivial when the trace has >= 2 '
         'cycles and at least one traced wire changes value')
 IMPORTS = 'From Coq Require Import String.\nFrom PyRTL Require Import Base.PyZ Sim.TraceBase Sim.Trace IO.Vcd Gen.InputGuards Sim.TraceHarness.'
@@ -275,13 +279,25 @@ def build(ctx, i):
     c.i, c.d, c.block = i, d, d.block
     c.ncyc = rng.randint(2, 8 if ctx.tier == 'quick' else 14)
     c.regmap, c.memmap, c.inputs = gen_designs.make_stimulus(rng, d, c.ncyc)
-    c.track_all = rng.random() < 0.25
+    r = rng.random()
+    c.track = 'all' if r < 0.2 else ('partial' if r < 0.5 else 'named')
+    c.track_all = c.track == 'all'
+    named = sorted((w.name for w in d.block.wirevector_set
+                    if not isinstance(w, pyrtl.Const) and not w.name.startswith(('tmp', 'const_'))
+                    and not w.name.endswith("'")))
+    k = rng.randint(1, max(1, len(named) - 1))
+    c.partial = sorted(set(rng.sample(named, k)) | {d.inputs[0].name})   # explicit wires_to_track list
     c.odd = odd
     return c
 
 
-def make_sim(c, cls):
-    tracer = pyrtl.SimulationTrace(wires_to_track='all' if c.track_all else None, block=c.block)
+def make_sim(c, cls, track=None):
+    track = track or getattr(c, 'track', 'all' if c.track_all else 'named')
+    if track == 'partial':
+        wtt = [c.block.wirevector_by_name[nm] for nm in c.partial]
+    else:
+        wtt = 'all' if track == 'all' else None
+    tracer = pyrtl.SimulationTrace(wires_to_track=wtt, block=c.block)
     sim = getattr(pyrtl, cls)(tracer=tracer, register_value_map=dict(c.regmap),
                               memory_value_map={m: dict(v) for m, v in c.memmap.items()}, block=c.block)
     return sim, tracer
@@ -292,11 +308,39 @@ def trace_dict(tracer):
 
 
 # ------------------------------------------------------------------ channel A
-def channel_inspect(ctx, c, key, cls):
+def reference_trace(c, cls):
+    """the same simulator class stepped with the default tracer (every named wire)"""
+    sim, tracer = make_sim(c, cls, track='named')
+    for ins in c.inputs:
+        sim.step(dict(ins))
+    return trace_dict(tracer)
+
+
+def channel_inspect(ctx, c, key, cls, ref=None):
     sim, tracer = make_sim(c, cls)
-    rep = {'seed': ctx.seed, 'design': c.i, 'simulator': cls, 'inputs': c.inputs}
+    rep = {'seed': ctx.seed, 'design': c.i, 'simulator': cls, 'inputs': c.inputs,
+           'wires_to_track': c.partial if getattr(c, 'track', '') == 'partial' else getattr(c, 'track', 'named')}
     for t, ins in enumerate(c.inputs):
         sim.step(dict(ins))
+        if ref is not None:
+            # wires left out of an explicit wires_to_track list: inspect must still give the wire's value
+            # (Simulation, FastSimulation) or refuse with PyrtlError (CompiledSimulation), never anything else
+            for nm in ref:
+                if nm in tracer.trace:
+                    continue
+                try:
+                    got = ('value', sim.inspect(nm))
+                except pyrtl.PyrtlError:
+                    got = ('PyrtlError', None)
+                except Exception as e:
+                    got = (type(e).__name__, None)
+                ok = got == ('value', ref[nm][t]) or (key == 'compiled' and got[0] == 'PyrtlError')
+                ctx.count('inspect_untracked', '%s:%s' % (key, got[0]))
+                if not ok:
+                    viol(ctx, 'inspect-untracked:%s' % key,
+                         '%s with wires_to_track=%s: inspect(%r) of an untracked wire gives %s after step %d, '
+                         'the wire\'s value is %s' % (cls, c.partial, nm, got, t, ref[nm][t]), dict(rep, step=t))
+                    break
         if len(tracer) != t + 1 or any(len(tracer.trace[nm]) != t + 1 for nm in tracer.trace):
             viol(ctx, 'trace-length:%s' % key,
                                '%s: after %d steps the trace lists have lengths %s' % (
@@ -314,9 +358,9 @@ def channel_inspect(ctx, c, key, cls):
 
 
 # ------------------------------------------------------------------ channel B
-def make_scenario(rng, c, trA, key):
+def make_scenario(rng, c, trA, key, pool=None):
     n = c.ncyc
-    names = list(trA)
+    names = list(pool if pool is not None else trA)
     in_names = [w.name for w in c.d.inputs]
     widths = {w.name: len(w) for w in c.d.inputs}
     kinds = ['normal'] * 6 + ['nsteps', 'err2', 'err3', 'err4', 'err5', 'bad-input', 'nsteps0']
@@ -375,9 +419,11 @@ def make_scenario(rng, c, trA, key):
                 as_str=as_str, widths=widths)
 
 
-def channel_step_multiple(ctx, c, key, cls, guard, trA, exprs, meta):
+def channel_step_multiple(ctx, c, key, cls, guard, trA, exprs, meta, pool=None):
+    """trA: wire -> values of the stepwise twin (may cover more wires than this tracer tracks);
+    pool: wires expected_outputs may mention (all inspectable ones)"""
     rng = ctx.sub_rng('sm', c.i, key)
-    sc = make_scenario(rng, c, trA, key)
+    sc = make_scenario(rng, c, trA, key, pool)
     sim, tracer = make_sim(c, cls)
     prov = {nm: (''.join(str(v) for v in vals) if sc['as_str'].get(('in', nm)) else list(vals))
             for nm, vals in sc['provided'].items()}
@@ -385,6 +431,7 @@ def channel_step_multiple(ctx, c, key, cls, guard, trA, exprs, meta):
            for nm, vals in sc['expected'].items()}
     f = io.StringIO()
     rep = {'seed': ctx.seed, 'design': c.i, 'simulator': cls, 'scenario': sc['kind'],
+           'wires_to_track': c.partial if getattr(c, 'track', '') == 'partial' else getattr(c, 'track', 'named'),
            'provided_inputs': prov, 'expected_outputs': exp, 'nsteps': sc['nsteps'],
            'stop_after_first_error': sc['stop']}
     err = None
@@ -679,6 +726,16 @@ class AssertB(Exception):
     pass
 
 
+class AssertPyrtl(pyrtl.PyrtlError):
+    """an rtl_assert exception that is itself a PyrtlError"""
+    pass
+
+
+EXC_CLASSES = [AssertA, AssertB, AssertPyrtl, pyrtl.PyrtlError, pyrtl.PyrtlInternalError,
+               ValueError, IndexError, RuntimeError, AssertionError]
+TRACER_CONFIGS = ['default', 'all', 'without-assert-wires', 'with-assert-wires']
+
+
 def channel_assert(ctx, j, exprs, meta):
     rng = ctx.sub_rng('assert', j)
     d = gen_designs.make_design(rng, wide_prob=0.05, n_ops=rng.randint(2, 8), allow_mem=False, allow_rom=False)
@@ -687,7 +744,8 @@ def channel_assert(ctx, j, exprs, meta):
     nas = rng.choice([1, 1, 2])
     cnt = pyrtl.Register(5, 'acnt')
     cnt.next <<= cnt + 1
-    exps = [AssertA('first'), AssertB('second')]
+    ecls = [EXC_CLASSES[(j + 3 * k) % len(EXC_CLASSES)] for k in range(2)]
+    exps = [ecls[0]('first'), ecls[1]('second')]
     specs = []
     extra_in = []
     for a in range(nas):
@@ -725,32 +783,67 @@ def channel_assert(ctx, j, exprs, meta):
         if low:
             first = (t, low[0])
             break
+    assert_names = {s_[0] for s_ in specs} | {s_[1] for s_ in specs}
+    plain = [w for w in d.inputs + extra_in + d.outputs + [o]]
+
+    def tracer_for(cfg):
+        if cfg == 'default':
+            return pyrtl.SimulationTrace(block=block)
+        if cfg == 'all':
+            return pyrtl.SimulationTrace(wires_to_track='all', block=block)
+        ws = list(plain)
+        if cfg == 'with-assert-wires':
+            ws += [block.wirevector_by_name[nm] for nm in sorted(assert_names)]
+        return pyrtl.SimulationTrace(wires_to_track=ws, block=block)
+
     for key, cls, guard in SIMS[:2]:
-        tracer = pyrtl.SimulationTrace(block=block)
-        sim = getattr(pyrtl, cls)(tracer=tracer, register_value_map=dict(regmap), block=block)
-        raised = None
-        for t in range(ncyc):
-            try:
-                sim.step(dict(inputs[t]))
-            except (AssertA, AssertB) as e:
-                raised = (t, exps.index(e) if e in exps else -1)
-                break
-        rep = {'seed': ctx.seed, 'assert_design': j, 'simulator': cls, 'assert_wires': [s[0] for s in specs],
-               'wire_is_low': [s[2] for s in specs], 'inputs': inputs, 'raised': raised, 'expected': first}
-        tr = trace_dict(tracer)
-        # the wire values themselves, as traced, are the ground truth for "is 0"
-        seen_low = None
-        for t in range(len(tr[specs[0][0]])):
-            low = [a for a in range(nas) if tr[specs[a][0]][t] == 0]
-            if low:
-                seen_low = (t, low[0])
-                break
-        if raised != seen_low or raised != first:
-            viol(ctx, 'rtl_assert:%s' % key,
-                               '%s: rtl_assert raised at %s, the assertion wire is first 0 at %s (traced: %s)'
-                               % (cls, raised, first, seen_low), rep)
-        ctx.count('assert_outcomes', '%s:%s' % (key, 'raised' if raised else 'never-low'))
-        ctx.case(('assert', j, key, raised), nontrivial=True, sample=rep if j == 0 and key == 'simulation' else None)
+        default_tr = None
+        default_raised = None
+        for cfg in TRACER_CONFIGS:
+            tracer = tracer_for(cfg)
+            sim = getattr(pyrtl, cls)(tracer=tracer, register_value_map=dict(regmap), block=block)
+            raised = None
+            other = None
+            for t in range(ncyc):
+                try:
+                    sim.step(dict(inputs[t]))
+                except Exception as e:   # the registered exception OBJECT must come out, whatever its class
+                    hit = [k for k in range(nas) if e is exps[k]]
+                    if hit:
+                        raised = (t, hit[0])
+                    else:
+                        other = (t, repr(e))
+                    break
+            rep = {'seed': ctx.seed, 'assert_design': j, 'simulator': cls, 'tracer': cfg,
+                   'exception_classes': [c_.__name__ for c_ in ecls[:nas]],
+                   'assert_wires': [s_[0] for s_ in specs], 'wire_is_low': [s_[2] for s_ in specs],
+                   'inputs': inputs, 'raised': raised, 'other_exception': other, 'expected': first}
+            tr = trace_dict(tracer)
+            # where traced, the wire values themselves are the ground truth for "is 0"
+            seen_low = first
+            if all(s_[0] in tr for s_ in specs):
+                seen_low = None
+                for t in range(len(tr[specs[0][0]])):
+                    low = [a for a in range(nas) if tr[specs[a][0]][t] == 0]
+                    if low:
+                        seen_low = (t, low[0])
+                        break
+            pyrtl_exc = any(isinstance(x, (pyrtl.PyrtlError, pyrtl.PyrtlInternalError)) for x in exps[:nas])
+            if other is not None or raised != seen_low or raised != first:
+                viol(ctx, 'rtl_assert:%s:tracer=%s%s' % (key, cfg, ':pyrtl-exception' if pyrtl_exc else ''),
+                     '%s (tracer %s, exceptions %s): rtl_assert raised at %s (other exception: %s), the assertion '
+                     'wire is first 0 at %s (traced: %s)' % (cls, cfg, rep['exception_classes'], raised, other,
+                                                            first, seen_low), rep)
+            ctx.count('assert_outcomes', '%s:%s:%s' % (key, cfg, 'raised' if raised else 'never-low'))
+            for c_ in ecls[:nas]:
+                ctx.count('assert_exception_classes', c_.__name__)
+            ctx.case(('assert', j, key, cfg, raised), nontrivial=True,
+                     sample=rep if j == 0 and key == 'simulation' and cfg == 'default' else None)
+            if cfg == 'default':
+                default_tr, default_raised = tr, raised
+        raised, tr = default_raised, default_tr
+        rep = {'seed': ctx.seed, 'assert_design': j, 'simulator': cls, 'tracer': 'default',
+               'assert_wires': [s_[0] for s_ in specs], 'inputs': inputs, 'raised': raised, 'expected': first}
         # tie: Coq run with asserts over the table of values of an assertion-free replay of the same wires
         # (values beyond the raising cycle come from continuing the real simulator, which keeps stepping)
         sim2_tr = pyrtl.SimulationTrace(block=block)
@@ -758,8 +851,9 @@ def channel_assert(ctx, j, exprs, meta):
         for t in range(ncyc):
             try:
                 sim2.step(dict(inputs[t]))
-            except (AssertA, AssertB):
-                pass
+            except Exception as e:
+                if not any(e is x for x in exps):
+                    raise
         tr2 = trace_dict(sim2_tr)
         names = list(tr2)
         tbl = lst('(%s, %s)' % (txt(nm), zlist(tr2[nm])) for nm in names)
@@ -767,7 +861,7 @@ def channel_assert(ctx, j, exprs, meta):
         widths = lst('(%s, %d)' % (txt(w.name), len(w)) for w in in_w)
         inss = lst(lst('(%s, %s)' % (txt(nm), zt(v)) for nm, v in inputs[t].items()) for t in range(ncyc))
         exprs.append('assert_case %s %s %s %s %s' % (
-            widths, lst(txt(s[1]) for s in specs), tbl, lst(txt(nm) for nm in names), inss))
+            widths, lst(txt(s_[1]) for s_ in specs), tbl, lst(txt(nm) for nm in names), inss))
         real = (raised[0] if raised else ncyc, (2, specs[raised[1]][1]) if raised else (0, ''),
                 len(tr[names[0]]), (raised[0], specs[raised[1]][1]) if raised else None)
         meta.append(('assert', j, key, real, rep))
@@ -824,10 +918,11 @@ def run(ctx):
         coq_sim = i % 3
         ctx.count('cycles', c.ncyc)
         ctx.count('odd_names', len(c.odd))
-        ctx.count('track', 'all' if c.track_all else 'named')
+        ctx.count('track', c.track)
         for si, (key, cls, guard) in enumerate(SIMS):
             try:
-                sim, tracer = channel_inspect(ctx, c, key, cls)
+                ref = reference_trace(c, cls) if c.track == 'partial' else None
+                sim, tracer = channel_inspect(ctx, c, key, cls, ref)
             except Exception as e:
                 viol(ctx, 'simulator-failed:%s' % key, '%s failed on an API-built design: %r' % (cls, e),
                                    {'seed': ctx.seed, 'design': c.i, 'simulator': cls})
@@ -842,7 +937,13 @@ def run(ctx):
             for nm in trA:
                 w = tracer._wires[nm].bitwidth
                 ctx.count('traced_widths', w if w <= 8 else ('9-64' if w <= 64 else '65+'))
-            channel_step_multiple(ctx, c, key, cls, guard, trA, exprs, meta)
+            if ref is not None:
+                # expected_outputs may name wires the tracer does not track (inspect still works), except
+                # under CompiledSimulation, whose inspect reads the trace
+                pool = list(trA) if key == 'compiled' else list(ref)
+                channel_step_multiple(ctx, c, key, cls, guard, ref, exprs, meta, pool)
+            else:
+                channel_step_multiple(ctx, c, key, cls, guard, trA, exprs, meta)
             channel_text(ctx, c, key, cls, tracer, si == coq_sim, exprs, meta)
             channel_illegal(ctx, c, key, cls, sim, tracer, guard_pairs)
     for j in range(nassert):
